@@ -32,8 +32,8 @@ CLAIMED = {
             "rejected/anonymous requests leave the GET response unchanged and send nothing, every change of the list is "
             "followed by exactly one notification whose payload equals the GET response in order.",
             "Same stubs as C12; observations only through on_api_command / on_api_get / send_plugin_message; R<=2 quick / 3 thorough."),
-    "C02": ("DESIGN.md 9/C02",
-            TECH + "bounded symbolic runs (BSR) of the real handler/state/retraction objects on programs with concrete skeleton and symbolic numbers",
+    "C02": ("DESIGN.md 9/C02, 13.7",
+            TECH + "bounded symbolic runs (BSR) of the real handler/state/retraction objects on programs with concrete skeleton and symbolic numbers, plus an inductive step",
             "Bounded symbolic model checking: after the real G28 prologue, every program of K commands over six shape alphabets "
             "(moves incl. repeated/valueless/leading-dot/signed words, retraction cycles, frame changes, other codes, arcs, G92 "
             "re-basing) with all numbers and up to R region geometries as solver variables is run through the real "
@@ -41,7 +41,9 @@ CLAIMED = {
             "region -- or exclusion disabled -- z3 shows the result is always 'unchanged' or the identical one-element list.",
             "Floats as reals; planArc/computeArcCenterOffsets stubbed by arbitrary sample points / centre offsets (C16's subject); "
             "K=2 (3 for retraction alphabet) quick, K=3/4 thorough; R=1 quick, 2 thorough; M206 and relative-mode arcs outside; "
-            "programs with G92 X/Y/Z are assumed away while known finding KF-G92-xyz-offset is open."),
+            "programs with G92 X/Y/Z are assumed away while known finding KF-G92-xyz-offset is open. Inductive step: one command "
+            "from an arbitrary state with 'tracked frame = file frame, not excluding, nothing pending, no skipped recovery' is "
+            "forwarded verbatim and re-establishes the invariant (any program length)."),
 }
 
 
@@ -56,16 +58,19 @@ def _bsr(text):
 
 
 CLAIMED.update({
-    "C01": ("DESIGN.md 9/C01", TECH + "bounded symbolic runs against a reference printer",
+    "C01": ("DESIGN.md 9/C01, 13.7", TECH + "bounded symbolic runs against a reference printer plus an inductive step from an arbitrary invariant state",
             _bsr("z3 shows per path that no executed element moves X/Y into a region and that nothing moves or pushes "
                  "filament while the oracle's episode is open; region additions interleaved with the stream."),
             PIPE_NOTE + "K=2 over five alphabets and K=3 episode templates (quick), K=3/4 (thorough); one region plus one added "
-            "mid-stream; exclusion enabled throughout; two known findings assumed away by scenario predicates."),
-    "C03": ("DESIGN.md 9/C03", TECH + "bounded symbolic runs against a reference printer",
+            "mid-stream; exclusion enabled throughout; two known findings assumed away by scenario predicates. The inductive "
+            "step (one command of 20 shapes from an arbitrary state satisfying the stated coupling invariant, invariant "
+            "re-established) extends the claim to programs of every length over that alphabet."),
+    "C03": ("DESIGN.md 9/C03, 13.7", TECH + "bounded symbolic runs against a reference printer plus an inductive step from an arbitrary invariant state",
             _bsr("after every move whose destination is outside all regions z3 shows P's X/Y/Z, mode and units equal V's and "
                  "that the re-positioning travel happens at max(previous Z, target Z)."),
             PIPE_NOTE + "templates enter/inside/leave, frame/enter/leave, arcs, any^3 (quick), K=4 (thorough); one region; "
-            "two known findings assumed away (relative exit, entering move with Z)."),
+            "two known findings assumed away (relative exit, entering move with Z); inductive step as for C01 (any program length "
+            "over the 20-shape alphabet)."),
     "C04": ("DESIGN.md 9/C04", TECH + "bounded symbolic runs over role-structured programs (matched equal-length cycles by construction)",
             _bsr("z3 shows the printer's E register equals the file's whenever no episode is open, every forwarded printing "
                  "move pushes the file's amount, suppressed moves push nothing."),
@@ -85,7 +90,8 @@ CLAIMED.update({
                  "numbers; for every number produced by a repr-style conversion z3 shows the value is outside CPython's "
                  "exponent range on that path (both branches of formatNumber explored); values read back equal the file's."),
             PIPE_NOTE + "repr contract (exponent iff v!=0 and (|v|<1e-4 or |v|>=1e16); [.N]f never) validated concretely; round-off-only "
-            "tiny values do not exist in real arithmetic (outside the solver's reach)."),
+            "tiny values do not exist in real arithmetic: they are covered by a fixed corpus of five concrete programs executed "
+            "with floats on the pristine code (reported separately in the evidence, not solver-decided)."),
     "C09": ("DESIGN.md 9/C09", TECH + "bounded symbolic runs with the real planArc/computeArcCenterOffsets under linear over-approximating trig contracts",
             _bsr("over a wide alphabet (missing/repeated/valueless words, signs, leading-dot numbers, all arc forms, G10 S/P, "
                  "bare G92, M206, unknown codes) z3 explores every feasible path; an exception escaping the real code or a "
